@@ -46,10 +46,10 @@ ASSUMPTIONS = [
 REQUIRED_COUNTERS = {
     "quick": {"split_chain_compared": 150, "checkpoint_continuation_compared": 1200, "callback_state_compared": 5000,
               "step_attr_diff_checked": 10000, "reinit_attr_compared": 1500, "stateless_chain_compared": 70,
-              "gibbs_split_compared": 150, "saved_state_unaltered_checked": 1200},
+              "gibbs_split_compared": 150, "saved_state_unaltered_checked": 1200, "gibbs_burnthin_compared": 1500},
     "thorough": {"split_chain_compared": 1200, "checkpoint_continuation_compared": 14000, "callback_state_compared": 50000,
                  "step_attr_diff_checked": 150000, "reinit_attr_compared": 15000, "stateless_chain_compared": 600,
-                 "gibbs_split_compared": 1300, "saved_state_unaltered_checked": 14000},
+                 "gibbs_split_compared": 1300, "saved_state_unaltered_checked": 14000, "gibbs_burnthin_compared": 12000},
 }
 BUDGET_S = {"quick": 240.0, "thorough": 2400.0}
 
@@ -921,6 +921,26 @@ def run_hybrid(case, ctx):
             if not (ref.shape == ch[p].shape and np.array_equal(ref, ch[p])):
                 ctx.violation("recorded_chain_differs_from_transitions", {**cfg, "variable": p},
                               detail=f"{tag}: get_samples()['{p}'] is not the ordered list of states the sweeps produced: " + _first_diff(ch[p], ref))
+    # burn-in removal / thinning of the returned JointSamples: every member keeps sweep states b, b+Nt, ...
+    prodU = produced.get(id(gU), [])
+    if len(prodU) == want and want >= 2:
+        js = gU.get_samples()
+        for b in sorted({0, Nb, want - 1}):
+            for Nt in (1, 2, 3, 5):
+                kind3, bt = core.outcome(js.burnthin, b, Nt)
+                if kind3 != "value":
+                    ctx.violation("burnthin_refused", {**cfg, "container": type(js).__name__},
+                                  detail=f"{type(js).__name__}.burnthin({b},{Nt}) on chains of {want} raised {bt!r}")
+                    continue
+                for p in names:
+                    ref = np.stack([st[p] for st in prodU], axis=1)[:, b::Nt]
+                    ctx.count("gibbs_burnthin_compared")
+                    got = R.as_chain(bt[p].samples) if p in bt else np.zeros((0, 0))
+                    if not (got.shape == ref.shape and np.array_equal(got, ref)):
+                        ctx.violation("burnthin_not_slice", {**cfg, "container": type(js).__name__, "thinning": "1" if Nt == 1 else ">1"},
+                                      detail=f"{type(js).__name__}.burnthin({b},{Nt}) on a chain of {want}: '{p}' keeps {got.shape[1] if got.ndim == 2 else '?'} states, "
+                                             f"requested the {ref.shape[1]} sweep states {b}, {b}+{Nt}, ...: " + _first_diff(got, ref))
+                        break
     ok = True
     for p in names:
         ctx.count("gibbs_split_compared")
@@ -962,10 +982,10 @@ def run_legacy_gibbs(case, ctx):
         for i, k in enumerate(parts):
             r = g.sample(k, Nb) if i == 0 else g.sample(k)
             outs.append({p: R.as_chain(v.samples).copy() for p, v in r.items()})
-        return g, outs
+        return g, outs, r
     with contracts.ensure(cuqi.sampler.Gibbs, "step", post, log):
-        gU, outU = go([N + M])
-        gS, outS = go([N, M])
+        gU, outU, retU = go([N + M])
+        gS, outS, _ = go([N, M])
     names = sorted(outU[0])
     for p in names:
         ctx.count("chain_length_checked")
@@ -985,6 +1005,19 @@ def run_legacy_gibbs(case, ctx):
             if not (ref.shape == out[p].shape and np.array_equal(ref, out[p])):
                 ctx.violation("recorded_chain_differs_from_transitions", {**cfg, "variable": p},
                               detail=f"{tag}: returned chain of '{p}' is not the ordered list of post-burn-in states the sweeps produced: " + _first_diff(out[p], ref))
+    prodU = produced.get(id(gU), [])
+    if len(prodU) == Nb + N + M and N + M >= 2:
+        for b in sorted({0, 1, N + M - 1}):
+            for Nt in (1, 2, 3, 5):
+                for p in names:
+                    kind3, bt = core.outcome(retU[p].burnthin, b, Nt)
+                    ctx.count("gibbs_burnthin_compared")
+                    ref = np.stack([st[p] for st in prodU[Nb:]], axis=1)[:, b::Nt]
+                    if kind3 != "value":
+                        ctx.violation("burnthin_refused", {**cfg, "container": "dict"}, detail=f"burnthin({b},{Nt}) of '{p}' on a chain of {N + M} raised {bt!r}")
+                    elif not (R.as_chain(bt.samples).shape == ref.shape and np.array_equal(R.as_chain(bt.samples), ref)):
+                        ctx.violation("burnthin_not_slice", {**cfg, "container": "dict", "thinning": "1" if Nt == 1 else ">1"},
+                                      detail=f"burnthin({b},{Nt}) of '{p}' on a chain of {N + M} does not keep the post-burn-in sweep states {b}, {b}+{Nt}, ...")
     ok = True
     for p in names:
         ctx.count("gibbs_split_compared")
